@@ -71,7 +71,7 @@ public:
     bool
     isSet(size_type     theBit) const
     {
-        assert(theBit >= m_size);
+        assert(theBit < m_size);
 
         return m_bitmap[theBit / eBitsPerUnit] & s_setMasks[theBit % eBitsPerUnit] ? true : false;
     }
